@@ -27,7 +27,7 @@ CHECKS = {
     "C01": {
         "level": "exploration",
         "technique": "runtime monitoring: probe-mechanism trace (ground truth per step) + independent pipeline model over the three assembled services; upstream hit counter",
-        "text": "Generated pipelines (probe and real mechanisms, `if` conditions driven to true/false/evaluation error, continue-on-error, fallback, 11 error-pipeline shapes, default rule, partial rules) run in fx-assembled decision, Envoy gRPC and proxy services; for each rule all-ok, every single deviating step x outcome x condition state, failing step x error-pipeline state and random plans are sent. A positive answer must be justified by the recorded step trace and by an independent pipeline model; non-positive answers must have a non-2xx status and no upstream hit. Held on the requests executed.",
+        "text": "Generated pipelines (probe and real mechanisms, `if` conditions driven to true/false/evaluation error, continue-on-error, fallback, 13 error-pipeline shapes, default rule, partial rules) run in fx-assembled decision, Envoy gRPC and proxy services (three service variants: without / with default rule, and verbose responses with trace logging and OpenTelemetry tracing enabled - SDK tracer provider, recording spans, no exporter); for each rule all-ok, every single deviating step x outcome x condition state, failing step x error-pipeline state and random plans are sent. A positive answer must be justified by the recorded step trace and by an independent pipeline model; non-positive answers must have a non-2xx status and no upstream hit. Held on the requests executed.",
         "note": "Trusts the probe/recording wrappers at the exported MechanismFactory seam and the ~60-line pipeline model; probe error handlers honour the error-handler contract. A request the model expects to pass but which is denied makes the run inconclusive (exit 2), not a violation.",
     },
     "C09": {
@@ -112,7 +112,7 @@ CHECKS = {
         "level": "exploration",
         "technique": "runtime monitoring: reference rewrite model vs request line/headers/body recorded by an upstream echo server behind the fx-assembled proxy (byte-exact raw client) + direct Backend.CreateURL differential",
         "text": "Two proxy instances (peer untrusted / trusted) with 10 rules covering every rewrite option receive seeded requests written byte-exact on the socket: pchar paths with arbitrary percent-encoding, queries with repeated/encoded/valueless parameters, all methods, bodies up to 1 MiB, client headers colliding with pipeline headers in random casing/repetition, forwarding headers. The upstream's request line must equal add(strip(client escaped path)) byte for byte, the query must be byte-identical (or equal as multimap minus removed parameters), method/body/Host as required, pipeline headers win, X-Forwarded-Method/-Uri/-Path never arrive, X-Forwarded-For/Forwarded end with the peer address and extend trusted values. Scheme rewrite is checked on Backend.CreateURL.",
-        "note": "Paths use RFC 3986 pchar characters only; with removed parameters the query is compared as multimap with per-key order; with allow_encoded_slashes: on the path is compared after decoding. A trusted peer's X-Forwarded-Method/-Uri/-Host/-Proto carry the actual values (their overriding effect is C09's subject).",
+        "note": "Paths use RFC 3986 pchar characters, plus segments with characters net/url does not accept unescaped (|, ^, {, \", <): those bytes may reach the upstream escaped, so both sides of the path comparison escape exactly them and compare everything else as sent; with removed parameters the query is compared as multimap with per-key order; with allow_encoded_slashes: on the path is compared after decoding. A trusted peer's X-Forwarded-Method/-Uri/-Host/-Proto carry the actual values (their overriding effect is C09's subject).",
     },
     "C16": {
         "level": "exploration",
